@@ -149,8 +149,12 @@ def r3_sole(facts, rep):
     # who calls apply_conversion at all
     from .common import census
     callers = sorted({b.path for b, bid, t, sp, nm in census(facts, lambda n_: n_ == "compound::apply_conversion")})
-    rep.ob("C09-R3", "callers", set(callers) <= {"compound::Compound::factor", "compound::Compound::mul", "compound::Compound::mul::reconstruct"},
-           "apply_conversion is called from %s" % callers)
+    # every caller lies in the call trees of factor / mul, whose summaries (helpers followed) check each conversion event
+    from ..callgraph import CallGraph
+    covered = CallGraph(facts).reachable(["compound::Compound::factor", "compound::Compound::mul"])
+    stray = [c for c in callers if c not in covered]
+    rep.ob("C09-R3", "callers", not stray and bool(callers),
+           "apply_conversion is called from %s%s" % (callers, "" if not stray else "; %s is outside the summarised call trees of factor / mul" % stray))
     # and who calls the method pointers / reads the Offset fraction
     for b in facts.lib_bodies():
         if b.from_derive():
